@@ -2,6 +2,7 @@
 package twig
 
 import (
+	"bytes"
 	"errors"
 	"fmt"
 	"io"
@@ -686,6 +687,32 @@ func (ctx *RenderContext) callMinFunction(args []interface{}) (interface{}, erro
 
 // EvaluateExpression evaluates an expression node
 func (ctx *RenderContext) EvaluateExpression(node Node) (interface{}, error) {
+	value, err := ctx.evaluateExpression(node)
+	if err != nil {
+		return value, err
+	}
+
+	// A macro call and parent() yield text. They used to be handed out as
+	// functions that only a print tag knew how to run: in a set, a condition,
+	// a do tag, under a filter or next to ~ the macro never ran (its failures
+	// were lost) and the function's address was printed. They are run here, so
+	// that the call has its value wherever it is written.
+	switch f := value.(type) {
+	case func(io.Writer) error:
+		var buf bytes.Buffer
+		if err := f(&buf); err != nil {
+			return nil, err
+		}
+		return buf.String(), nil
+	case func(*RenderContext) (interface{}, error):
+		return f(ctx)
+	}
+	return value, nil
+}
+
+// evaluateExpression evaluates an expression node; macro calls and parent()
+// come back as functions (see EvaluateExpression)
+func (ctx *RenderContext) evaluateExpression(node Node) (interface{}, error) {
 	if node == nil {
 		return nil, nil
 	}
